@@ -117,6 +117,9 @@ def g_split(draw):
     c["blocks"] = gen.composition(draw, n)
     c["inplace"] = gen.boolean(draw)
     c["from_empty"] = gen.choice(draw, ["no", "fresh", "reset", "resized"])
+    # the per-block statistics may have been written to HDF5 and read back with load() into a container that used to
+    # have the same or another shape (a reused / placeholder container)
+    c["reload"] = gen.choice(draw, ["no", "no", "same_shape", "other_shape"])
     return c
 
 
@@ -141,6 +144,28 @@ def c_split(ctx, case):
              "nonconsecutive" if list(case["perm"]) != sorted(case["perm"]) else "consecutive",
              ("+= from " + case.get("from_empty", "no")) if case["inplace"] else "+")
     parts = [g.acc_stats(X[b]) for b in blocks]
+    if case.get("reload", "no") != "no":
+        import os
+        import tempfile
+
+        reloaded = []
+        for i, s in enumerate(parts):
+            fd, path = tempfile.mkstemp(suffix=".h5", prefix="vf_c02_")
+            os.close(fd)
+            try:
+                s.save(path)
+                shape = (p["C"], p["F"]) if case["reload"] == "same_shape" else (p["C"] + 1 + i % 2, max(1, p["F"] - 1 + i % 3))
+                t = sut.GMMStats(*shape)
+                t.n = t.n + 1.0
+                t.load(path)
+                reloaded.append(t)
+            finally:
+                try:
+                    os.remove(path)
+                except OSError:
+                    pass
+        ctx.event("blocks reloaded from HDF5 into %s containers" % case["reload"].replace("_", "-"))
+        parts = reloaded
     snaps = [copy.deepcopy(s) for s in parts]
     if case["inplace"] and case.get("from_empty", "no") != "no":
         # the usual accumulator idiom: start from an empty (or reset) container and += every block
